@@ -101,7 +101,23 @@ def row_task(task):
     def once(rng):
         clear_proposal_dist_caches()
         tree, _ = gen.build_tree(f, data)
-        move, _kernel = make_move(cfg, rng, td)
+        if cfg.get("warm_alpha"):
+            # call history: the same kernel, samplers and tree distribution first run a few updates under another
+            # concentration value (seeded numpy generator), then the value is changed in place -- as the run loop's
+            # concentration update does -- without clearing any cache, and the update under test follows
+            td.prior.alpha = cfg["warm_alpha"]
+            g = np.random.default_rng([cfg["data_seed"], 4711])
+            move, kernel = make_move(cfg, g, td)
+            t_w, _ = gen.build_tree(f, data)
+            for _ in range(cfg.get("warm_steps", 3)):
+                t_w = move(t_w)
+            td.prior.alpha = cfg["alpha"]
+            sampler = move.__self__
+            sampler._rng = rng
+            if kernel is not None:
+                kernel._rng = rng
+        else:
+            move, _kernel = make_move(cfg, rng, td)
         out = move(tree)
         return out
 
